@@ -265,6 +265,7 @@ func (pc *ProviderCache) Len() int {
 
 // Refresh initiates an immediate cache refresh.
 func (pc *ProviderCache) Refresh(ctx context.Context) error {
+	verifhook.Point("pcache.enter", "refresh")
 	// Refreshes that began before this call was made.
 	started := pc.refreshStarts.Load()
 	verifhook.Point("pcache.lock", "refresh")
